@@ -43,3 +43,30 @@ Proof.
             else split_docs toml (join_docs (d2 :: r2)) ("---" :: rev d ++ [])).
     rewrite S, app_nil_r, rev_involutive. f_equal. apply IH; [discriminate|exact Hr].
 Qed.
+
+(* ---- a whole stream: what is written reads back, given that each document's text does ----
+   [enc]/[dec] stand for the per-document encoder and decoder of one format (third-party code: the oracles of the
+   check); the two hypotheses are exactly what the per-run comparison establishes for the documents it generates. *)
+Section StreamRoundTrip.
+  Variable toml : bool.
+  Variable enc : value -> list string.
+  Variable dec : list string -> res value.
+  Hypothesis dec_enc : forall d, dec (enc d) = Ok d.
+  Hypothesis enc_nosep : forall d, no_sep_line toml (enc d) = true.
+
+  Definition write_stream (docs : list value) : list string := join_docs (map enc docs).
+  Definition read_stream (lines : list string) : res (list value) := map_res dec (split_docs toml lines []).
+
+  Theorem stream_roundtrip docs : docs <> [] -> read_stream (write_stream docs) = Ok docs.
+  Proof.
+    intro Hne. unfold read_stream, write_stream. rewrite split_join.
+    - induction docs as [|d r IH]; [congruence|]. cbn [map map_res]. rewrite dec_enc. cbn [bind].
+      destruct r as [|d2 r2]; [reflexivity|]. rewrite IH by discriminate. reflexivity.
+    - destruct docs; [congruence|discriminate].
+    - clear Hne. induction docs as [|d r IH]; [reflexivity|]. cbn [map forallb]. now rewrite enc_nosep, IH.
+  Qed.
+
+  (* and the number of documents is preserved exactly: none dropped, none invented *)
+  Corollary stream_count docs l : docs <> [] -> read_stream (write_stream docs) = Ok l -> List.length l = List.length docs.
+  Proof. intros Hne H. rewrite (stream_roundtrip docs Hne) in H. inversion H. reflexivity. Qed.
+End StreamRoundTrip.
